@@ -28,6 +28,7 @@ from mgfacts import strip, walk, regex_nfa, cfg_nfa, lang_diff, FnView
 import mgmodel
 from mgmodel import MGView, classify, args_by_name, neg_of, is_one
 import mgflow
+import norm_c08
 
 MG = "kernel/solver/multigrid.hpp"
 CYCLES = {"_apply_cycle_v": "V", "_apply_cycle_f": "F", "_apply_cycle_w": "W"}
@@ -368,76 +369,196 @@ def is_w_count_loop(view, loop):
     return ex.get("k") == "Bin" and ex.get("op") == "-" and view.level(ex["lhs"]) == ("last", 0) and view.level(ex["rhs"]) == ("top", 0)
 
 
-def index_interval(view, sub, idx):
-    """symbolic interval [lo, hi] (Lin) of the values the subscript expression idx can take at site sub,
-    the guaranteed gap last - top >= gap at that site, and a description; raises NotImplementedError(text)"""
-    loops = enclosing(view, sub, ("For", "While", "Do"))
-    gap = 1 if any(is_w_count_loop(view, l) for l in loops) else 0
-    e = strip(idx)
-    pre_dec = False
-    if e.get("k") == "Un" and e.get("op") == "--" and not e.get("post"):
-        pre_dec = True
-        e = strip(e["e"])
-    if e.get("k") != "Ref" or e.get("dk") != "local":
-        raise NotImplementedError("subscript %s is not a loop or search variable" % render(idx))
-    d = e["d"]
-    nm = e.get("n")
-    # (1) induction variable of an enclosing counting for-loop
+def lin_min(a, b, gap):
+    """the smaller of two Lin values if they are comparable for every admissible (top, last), else None"""
+    if (b - a).nonneg(gap):
+        return a
+    if (a - b).nonneg(gap):
+        return b
+    return None
+
+
+def lin_max(a, b, gap):
+    if (b - a).nonneg(gap):
+        return b
+    if (a - b).nonneg(gap):
+        return a
+    return None
+
+
+def site_gap(view, node):
+    """1 if the node sits inside the W-cycle count loop (an iteration implies last > top), else 0"""
+    return 1 if any(is_w_count_loop(view, l) for l in enclosing(view, node, ("For", "While", "Do"))) else 0
+
+
+def expr_interval(view, site, e, busy=()):
+    """symbolic interval [lo, hi] (Lin) of an index expression evaluated at node `site`: level expressions, loop /
+    search / result variables (see var_interval), each plus or minus a constant; raises NotImplementedError(text)"""
+    v = lin_of(view, e)
+    if v is not None:
+        return v, v, str(v)
+    x = view.value(e)
+    k = x.get("k")
+    if k == "Ref" and x.get("dk") == "local":
+        return var_interval(view, site, x, busy)
+    if k == "Bin" and x.get("op") in ("+", "-"):
+        l, r = view.value(x["lhs"]), view.value(x["rhs"])
+        if r.get("k") == "Int":
+            lo, hi, d = expr_interval(view, site, l, busy)
+            c = int(r["v"]) * (1 if x["op"] == "+" else -1)
+            return lo.shift(c), hi.shift(c), "%s%+d" % (d, c)
+        if l.get("k") == "Int" and x["op"] == "+":
+            lo, hi, d = expr_interval(view, site, r, busy)
+            return lo.shift(int(l["v"])), hi.shift(int(l["v"])), "%s%+d" % (d, int(l["v"]))
+    raise NotImplementedError("%s is not a level expression or a loop / search variable plus a constant" % render(e))
+
+
+def var_interval(view, site, ref, busy=()):
+    """interval of the values the local variable `ref` can hold at node `site`:
+       (1) induction variable of an enclosing counting loop (for / while, step in the increment or first in the body),
+       (2) descending search variable `T p = X; while(p > B) { ... --p ... }`,
+       (3) result variable: initialised and otherwise only assigned (`p = e`) — the hull of the initial and all assigned
+           values, each evaluated at its assignment (e.g. `p = top; for(i...) if(..) { p = i; break; }`)."""
+    d, nm = ref["d"], ref.get("n")
+    if d in busy:
+        raise NotImplementedError("cyclic definition of %s" % nm)
+    busy = busy + (d,)
+    loops = enclosing(view, site, ("For", "While", "Do"))
+    gap = site_gap(view, site)
     for l in loops:
         sh = for_shape(view, l)
         if sh is None or sh["d"] != d or sh["step"] is None or sh["step"][1] == "mid":
             continue
-        if pre_dec or sh["cond"] is None or sh["step"] is None or sh["init"] is None:
+        if sh["cond"] is None or sh["init"] is None:
             raise NotImplementedError("loop over %s is not a counting loop" % nm)
-        def bound(x):
-            """(lo, hi) of a loop bound: a level expression, or a search variable with its own range"""
-            v = lin_of(view, x)
-            if v is not None:
-                return v, v
-            xr = view.value(x)
-            if xr.get("k") == "Ref" and xr.get("dk") == "local" and xr.get("d") != d:
-                blo, bhi, _, _ = index_interval(view, l, xr)
-                return blo, bhi
-            raise NotImplementedError("bound %s of the loop over %s is not a level expression" % (render(x), nm))
-        (Ilo, Ihi), (Blo, Bhi) = bound(sh["init"]), bound(sh["cond"][1])
+        Ilo, Ihi, _ = expr_interval(view, l, sh["init"], busy)
+        Blo, Bhi, _ = expr_interval(view, l, sh["cond"][1], busy)
         op, (st, where, w) = sh["cond"][0], sh["step"]
         txt = "%s = %s; %s %s %s" % (nm, render(sh["init"]), nm, op, render(sh["cond"][1]))
-        txt = re.sub(r"std::size_t|FEAT::Index", "", txt)
-        if st == 1 and where == "inc" and op in ("<", "<="):
-            return Ilo, (Bhi.shift(-1) if op == "<" else Bhi), gap, "for(%s; ++)" % txt
-        if st == -1 and where == "inc" and op in (">", ">="):
-            return (Blo.shift(1) if op == ">" else Blo), Ihi, gap, "for(%s; --)" % txt
-        if st == -1 and where == "body" and op in (">", ">="):
+        txt = re.sub(r"std::size_t|FEAT::Index|unsigned long", "", txt)
+        if st == 1 and where == "inc" and op in ("<", "<=", "!="):
+            return Ilo, (Bhi if op == "<=" else Bhi.shift(-1)), "for(%s; ++)" % txt
+        if st == -1 and where == "inc" and op in (">", ">=", "!="):
+            return (Blo if op == ">=" else Blo.shift(1)), Ihi, "for(%s; --)" % txt
+        if st == -1 and where == "body" and op in (">", ">=", "!="):
             body = l.get("body") or {}
             first = (body.get("s") or [None])[0]
             if first is None or strip(first).get("i") != w.get("i"):
                 raise NotImplementedError("decrement of %s is not the first statement of its loop body" % nm)
-            return (Blo if op == ">" else Blo.shift(-1)), Ihi.shift(-1), gap, "for(%s;) { --%s; ..." % (txt, nm)
+            return (Blo.shift(-1) if op == ">=" else Blo), Ihi.shift(-1), "for(%s;) { --%s; ..." % (txt, nm)
         raise NotImplementedError("loop over %s: step %+d in %s with condition %s" % (nm, st, where, op))
-    # (2) search variable:  T p = X;  while(p > B) { ... --p ... }
     var = view.locals.get(d)
     ws = view.writes.get(d, [])
-    if var is None or var.get("init") is None or len(ws) != 1 or not (ws[0].get("k") == "Un" and ws[0].get("op") == "--"):
-        raise NotImplementedError("variable %s is neither a loop variable nor a descending search variable" % nm)
-    wl = [l for l in enclosing(view, ws[0], ("While",))]
-    if not wl:
-        raise NotImplementedError("decrement of %s is not inside a while loop" % nm)
-    c = strip(wl[0].get("c") or {})
-    if not (c.get("k") == "Bin" and c.get("op") == ">" and strip(c["lhs"]).get("k") == "Ref" and strip(c["lhs"])["d"] == d):
-        raise NotImplementedError("search loop condition %s" % render(c))
-    X, B = lin_of(view, var["init"]), lin_of(view, c["rhs"])
-    if X is None or B is None:
-        raise NotImplementedError("search bounds %s / %s are not level expressions" % (render(var["init"]), render(c["rhs"])))
-    desc = "%s = %s; while(%s > %s) --%s" % (nm, X, nm, B, nm)
-    if pre_dec:
-        return B, X.shift(-1), gap, desc
-    # after the search: p in [B, X]; if X > B is guaranteed the loop body ran at least once, hence p <= X-1
-    d0 = X - B
-    ran = Lin(d0.a, d0.b, d0.c - 1).nonneg(gap)
-    inside = any(l is wl[0] for l in loops)
-    if ran and not inside:
-        return B, X.shift(-1), gap, desc
-    return B, X, gap, desc
+    if var is None or var.get("init") is None:
+        raise NotImplementedError("variable %s has no initial value" % nm)
+    # (2) search variable
+    if len(ws) == 1 and ws[0].get("k") == "Un" and ws[0].get("op") == "--":
+        wl = [l for l in enclosing(view, ws[0], ("While", "For"))]
+        if not wl:
+            raise NotImplementedError("decrement of %s is not inside a loop" % nm)
+        c = strip(wl[0].get("c") or {})
+        if not (c.get("k") == "Bin" and c.get("op") in (">", "!=") and strip(c["lhs"]).get("k") == "Ref" and strip(c["lhs"])["d"] == d) or (wl[0].get("k") == "For" and (wl[0].get("init") is not None or wl[0].get("inc") is not None)):
+            raise NotImplementedError("search loop condition %s" % render(c))
+        X, B = lin_of(view, var["init"]), lin_of(view, c["rhs"])
+        if X is None or B is None:
+            raise NotImplementedError("search bounds %s / %s are not level expressions" % (render(var["init"]), render(c["rhs"])))
+        desc = "%s = %s; while(%s > %s) --%s" % (nm, X, nm, B, nm)
+        # after the search: p in [B, X]; if X > B is guaranteed the loop body ran at least once, hence p <= X-1
+        d0 = X - B
+        ran = Lin(d0.a, d0.b, d0.c - 1).nonneg(gap)
+        inside = any(l is wl[0] for l in loops)
+        if ran and not inside:
+            return B, X.shift(-1), desc
+        return B, X, desc
+    # (3) result variable
+    if ws and all(w.get("k") == "Assign" and w.get("op") == "=" for w in ws):
+        lo, hi, d0 = expr_interval(view, view.byid.get(view.decl_stmt.get(d)) or site, var["init"], busy)
+        parts = [d0]
+        for w in ws:
+            g = min(gap, site_gap(view, w))
+            l2, h2, d2 = expr_interval(view, w, w["rhs"], busy)
+            lo, hi = lin_min(lo, l2, g), lin_max(hi, h2, g)
+            if lo is None or hi is None:
+                raise NotImplementedError("the values assigned to %s (%s, %s) are not comparable for all level ranges" % (nm, d0, d2))
+            parts.append(d2)
+        return lo, hi, "%s in {%s}" % (nm, ", ".join(parts))
+    raise NotImplementedError("variable %s is neither a loop variable, a descending search variable nor a result variable (initialised, then only assigned)" % nm)
+
+
+def index_interval(view, sub, idx):
+    """symbolic interval [lo, hi] (Lin) of the values the subscript expression idx can take at site sub,
+    the guaranteed gap last - top >= gap at that site, and a description; raises NotImplementedError(text)"""
+    gap = site_gap(view, sub)
+    e = strip(idx)
+    if e.get("k") == "Un" and e.get("op") == "--" and not e.get("post"):
+        # `_counters[--p]` inside the search loop `while(p > B)`: the decremented value lies in [B, X-1]
+        t = strip(e["e"])
+        if t.get("k") != "Ref" or t.get("dk") != "local":
+            raise NotImplementedError("subscript %s is not a loop or search variable" % render(idx))
+        var = view.locals.get(t["d"])
+        ws = view.writes.get(t["d"], [])
+        wl = enclosing(view, e, ("While", "For", "Do"))
+        c = strip(wl[0].get("c") or {}) if wl else {}
+        if var is None or var.get("init") is None or len(ws) != 1 or ws[0] is not e or not wl or wl[0].get("k") != "While" or not (
+                c.get("k") == "Bin" and c.get("op") == ">" and strip(c["lhs"]).get("k") == "Ref" and strip(c["lhs"])["d"] == t["d"]):
+            raise NotImplementedError("pre-decremented subscript %s outside a search loop `while(%s > bound)`" % (render(idx), t.get("n")))
+        X, B = lin_of(view, var["init"]), lin_of(view, c["rhs"])
+        if X is None or B is None:
+            raise NotImplementedError("search bounds %s / %s are not level expressions" % (render(var["init"]), render(c["rhs"])))
+        return B, X.shift(-1), gap, "%s = %s; while(%s > %s) --%s" % (t.get("n"), X, t.get("n"), B, t.get("n"))
+    lo, hi, desc = expr_interval(view, sub, idx)
+    return lo, hi, gap, desc
+
+
+def lin_eq(a, b):
+    return (a.a, a.b, a.c) == (b.a, b.b, b.c)
+
+
+def loop_bounds_exact(view, site, idx):
+    """the subscript is the induction variable of an enclosing counting loop whose start and bound are level expressions
+    (then the loop visits exactly the interval var_interval reports), or a level expression itself"""
+    if lin_of(view, idx) is not None:
+        return True
+    e = view.value(idx)
+    if e.get("k") != "Ref":
+        return False
+    for l in enclosing(view, site, ("For", "While", "Do")):
+        sh = for_shape(view, l)
+        if sh is not None and sh["d"] == e.get("d") and sh["init"] is not None and sh["cond"] is not None:
+            return lin_of(view, sh["init"]) is not None and lin_of(view, sh["cond"][1]) is not None
+    return False
+
+
+BIG = 10 ** 6       # stands for "up to the end of the array" (size() is not related to the level range here)
+
+
+def iter_offset(view, site, it, depth=0):
+    """(lo, hi, text, exact) of the element offset an iterator / pointer into _counters denotes:
+    _counters.begin() [+ e]..., _counters.data() + e, &_counters[e], _counters.end()"""
+    x = view.value(it)
+    k = x.get("k")
+    if depth > 8:
+        raise NotImplementedError("iterator expression %s" % render(it))
+    if k in ("Construct", "TempObj") and len(x.get("a", [])) == 1:
+        return iter_offset(view, site, x["a"][0], depth + 1)
+    if k == "MCall" and mgmodel.is_this_member(x.get("obj") or {}, "_counters") and not x.get("a"):
+        if x.get("n") in ("begin", "cbegin", "data"):
+            return Lin(0, 0, 0), Lin(0, 0, 0), "0", True
+        if x.get("n") in ("end", "cend"):
+            return Lin(1, 0, BIG), Lin(1, 0, BIG), "size", True
+    if k == "Un" and x.get("op") == "&":
+        e = strip(x["e"])
+        if e.get("k") == "OpCall" and e.get("op") == "[]" and mgmodel.is_this_member(e["a"][0], "_counters"):
+            lo, hi, d = expr_interval(view, site, e["a"][1])
+            return lo, hi, d, lin_eq(lo, hi)
+    if (k == "OpCall" and x.get("op") in ("+", "-") and len(x.get("a", [])) == 2) or (k == "Bin" and x.get("op") in ("+", "-")):
+        a, b = (x["a"][0], x["a"][1]) if k == "OpCall" else (x["lhs"], x["rhs"])
+        lo, hi, d, ex = iter_offset(view, site, a, depth + 1)
+        l2, h2, d2 = expr_interval(view, site, b)
+        if x["op"] == "+":
+            return lo + l2, hi + h2, ("%s+%s" % (d, d2)).replace("0+", ""), ex and lin_eq(l2, h2)
+        return lo - h2, hi - l2, "%s-(%s)" % (d, d2), ex and lin_eq(l2, h2)
+    raise NotImplementedError("iterator expression %s into _counters is not begin()/data() plus an index expression" % render(it))
 
 
 def check_w_counters(ck, view, inst, inner_event_ids):
@@ -452,10 +573,19 @@ def check_w_counters(ck, view, inst, inner_event_ids):
         ck.incomplete(rule, "%s: no subscript of _counters found" % inst)
         return
     sub_bases = {id(strip(n["a"][0])) for n in subs}
+    # std::fill / std::fill_n over an iterator (or pointer) range of _counters: the loop `for(k in [first, last)) _counters[k] = v`
+    fills = []
+    fill_members = set()
     for n in walk(view.fn.body):
-        if mgmodel.is_this_member(n, "_counters") and id(strip(n)) not in sub_bases and id(n) not in sub_bases:
+        if n.get("k") == "Call" and (n.get("callee") or "").rsplit("::", 1)[-1] in ("fill", "fill_n") and (n.get("callee") or "").startswith("std::") and len(n.get("a", [])) == 3:
+            mem = [x for a in n["a"][:2] for x in walk(a) if mgmodel.is_this_member(x, "_counters")]
+            if mem:
+                fills.append(n)
+                fill_members |= {id(x) for x in mem}
+    for n in walk(view.fn.body):
+        if mgmodel.is_this_member(n, "_counters") and id(strip(n)) not in sub_bases and id(n) not in sub_bases and id(n) not in fill_members:
             par = view.parent.get(n.get("i"))
-            ck.incomplete(rule, "%s: _counters is used other than by subscripting (%s, line %s): fill/assign/iterator idioms are not modelled" % (inst, render(par)[:60] if par else "?", n.get("l")))
+            ck.incomplete(rule, "%s: _counters is used other than by subscripting or std::fill (%s, line %s): assign/iterator idioms are not modelled" % (inst, render(par)[:60] if par else "?", n.get("l")))
             return
     wloop = loop_of(view, inner_event_ids)
     wids = {x.get("i") for x in walk(wloop)} if wloop is not None else set()
@@ -477,8 +607,26 @@ def check_w_counters(ck, view, inst, inner_event_ids):
         except NotImplementedError as ex:
             ck.incomplete(rule, "%s: %s (line %s)" % (inst, ex, n.get("l")))
             return
-        sites.append({"n": n, "kind": kind, "lo": lo, "hi": hi, "gap": gap, "desc": desc, "inw": n["i"] in wids})
-    entry = [s for s in sites if s["kind"] == "zero" and not s["inw"] and first_inner is not None
+        sites.append({"n": n, "kind": kind, "lo": lo, "hi": hi, "gap": gap, "desc": desc, "inw": n["i"] in wids, "idx": render(n["a"][1]),
+                      "exact": loop_bounds_exact(view, n, n["a"][1])})
+    for n in fills:
+        try:
+            nm = n["callee"].rsplit("::", 1)[-1]
+            flo, fhi, fd, fexact = iter_offset(view, n, n["a"][0])
+            if nm == "fill":
+                elo, ehi, ed, eexact = iter_offset(view, n, n["a"][1])
+            else:
+                clo, chi, cd = expr_interval(view, n, n["a"][1])
+                elo, ehi, ed, eexact = flo + clo, fhi + chi, "%s+%s" % (fd, cd), fexact and lin_eq(clo, chi)
+        except NotImplementedError as ex:
+            ck.incomplete(rule, "%s: %s (line %s)" % (inst, ex, n.get("l")))
+            return
+        z = view.value(n["a"][2])
+        kind = "zero" if (z.get("k") == "Int" and int(z["v"]) == 0) else "write"
+        sites.append({"n": n, "kind": kind, "lo": flo, "hi": ehi.shift(-1), "gap": site_gap(view, n), "desc": "std::%s over [%s, %s)" % (nm, fd, ed), "inw": n["i"] in wids,
+                      "idx": "%s .. %s-1" % (fd, ed), "exact": fexact and eexact})
+    # a reset at cycle entry counts as covering [lo, hi] only if its bounds are exact (not themselves ranges of a variable)
+    entry = [s for s in sites if s["kind"] == "zero" and s["exact"] and not s["inw"] and first_inner is not None
              and first_inner in view.flow_from(s["n"]["i"])[0] and s["n"]["i"] not in view.flow_from(first_inner)[0]]
     uses = [s for s in sites if s not in entry]
     # adjacent / overlapping reset loops are merged into one interval
@@ -504,11 +652,11 @@ def check_w_counters(ck, view, inst, inner_event_ids):
         ck.ob(rule, "%s/entry-reset" % inst, False, "no loop zeroes _counters before the W-cycle iterations (documented: at the beginning of each W-cycle all peak counters are reset to 0)",
               view.fn.file, view.fn.line)
     else:
-        ck.ob(rule, "%s/entry-reset" % inst, True, "; ".join("_counters[%s] = 0 for %s in [%s, %s] (%s)" % (render(s["n"]["a"][1]), render(s["n"]["a"][1]), s["lo"], s["hi"], s["desc"]) for s in entry),
+        ck.ob(rule, "%s/entry-reset" % inst, True, "; ".join("_counters[%s] = 0 for %s in [%s, %s] (%s)" % (s["idx"], s["idx"], s["lo"], s["hi"], s["desc"]) for s in entry),
               view.fn.file, entry[0]["n"].get("l"))
     seen = {}
     for s in uses:
-        key = "%s/%s _counters[%s]" % (inst, {"read": "read", "incr": "increment", "zero": "inner reset", "write": "write"}[s["kind"]], render(s["n"]["a"][1]))
+        key = "%s/%s _counters[%s]" % (inst, {"read": "read", "incr": "increment", "zero": "inner reset", "write": "write"}[s["kind"]], s["idx"])
         seen[key] = seen.get(key, 0) + 1
         if seen[key] > 1:
             key += "#%d" % seen[key]
@@ -1083,47 +1231,97 @@ def check_peak_fallback(ck, view, inst):
         ck.ob(rule, key, bad is None, bad or "smoothers applied: %s" % (kinds or "none"), view.fn.file, view.fn.line)
 
 
+ADAPT_MODES = ("Fixed", "MinEnergy", "MinDefect")      # enumerators of MultiGridAdaptCGC (multigrid.hpp, documented)
+
+
 def check_adapt_omega(ck, view, inst):
-    """MinEnergy: w = <def,cor>/<A cor,cor>;  MinDefect: w = <def,A cor>/<A cor,A cor>  (tmp = A*cor)"""
+    """MinEnergy: w = <def,cor>/<A cor,cor>;  MinDefect: w = <def,A cor>/<A cor,A cor>  (tmp = A*cor).
+    The step length is the scalar handed to `sol.axpy(cor, w)`; every value assigned to it is attributed to the modes of
+    _adapt_cgc under which the assignment executes — `switch` cases, `if / else if` chains, ternaries, negated
+    conditions and an enclosing `!= Fixed` guard are the same decision table (norm_c08.contexts / enum_values)."""
     rule = "E6.adapt-omega"
     want = {"MinEnergy": (frozenset(["def", "cor"]), frozenset(["tmp", "cor"])),
             "MinDefect": (frozenset(["def", "tmp"]), (frozenset(["tmp"])))}
-    found = set()
+    # the step-length variable(s)
+    wvars = {}
+    for b in view.cfg.blocks.values():
+        for e in b["el"]:
+            ev = classify(view, e)
+            if ev and ev["kind"] == "axpy" and vec(ev["dst"], "sol") and vec(ev["src"], "cor"):
+                a = strip(ev["alpha"])
+                if a.get("k") == "Ref" and a.get("dk") == "local":
+                    wvars[a["d"]] = a.get("n")
+    universe = set(ADAPT_MODES)
     for n in walk(view.fn.body):
-        if n.get("k") != "Case":
-            continue
-        cv = strip(n.get("v") or {})
-        nm = cv.get("qn", "").rsplit("::", 1)[-1]
+        if n.get("k") == "Ref" and n.get("dk") == "enum" and "MultiGridAdaptCGC::" in (n.get("qn") or ""):
+            universe.add(n["qn"].rsplit("::", 1)[-1])
+    is_sel = lambda x: mgmodel.is_this_member(x, "_adapt_cgc")
+
+    def dotset(x):
+        x = view.value(x)
+        if x.get("k") == "MCall" and x.get("n") == "dot" and x.get("a"):
+            a, b = view.obj(x.get("obj")), view.obj(x["a"][0])
+            if vec(a) and vec(b) and a[1] == b[1]:
+                return frozenset([a[2], b[2]])
+        return None
+
+    def leaves(x):
+        x2 = strip(x)
+        if x2.get("k") == "Cond":
+            return leaves(x2["then"]) + leaves(x2["else"])
+        return [x2]
+    table = {}          # mode -> [(formula | None, node, text)]
+    problems = []
+    for d, nm in wvars.items():
+        for w in view.writes.get(d, []):
+            if w.get("k") != "Assign" or w.get("op") != "=":
+                problems.append("step length %s is modified by %s (line %s)" % (nm, render(w)[:60], w.get("l")))
+                continue
+            for leaf in leaves(w["rhs"]):
+                modes = set()
+                for alt in norm_c08.contexts(view, leaf if leaf.get("i") is not None else w):
+                    vals = norm_c08.enum_values(view, is_sel, alt, universe)
+                    if vals is None:
+                        problems.append("condition on _adapt_cgc around `%s` (line %s) is not a comparison with an enumerator" % (render(w)[:50], w.get("l")))
+                        vals = set()
+                    modes |= vals
+                val = view.value(leaf)
+                form = None
+                if val.get("k") == "Bin" and val.get("op") == "/":
+                    num, den = dotset(val["lhs"]), dotset(val["rhs"])
+                    if num is not None and den is not None:
+                        form = (num, den)
+                for m in modes:
+                    table.setdefault(m, []).append((form, w, render(val)))
+    if not wvars:
+        problems.append("no `vec_sol.axpy(vec_cor, <local step length>)` found")
+    for p in problems:
+        ck.incomplete(rule, "%s: %s" % (inst, p))
+    if problems:
+        return
+    for nm in sorted(set(table) | set(want)):
         if nm not in want:
             continue
-        s = n.get("s")
-        if not isinstance(s, dict) or s.get("k") != "Assign" or s.get("op") != "=":
-            ck.incomplete(rule, "%s: case %s is not a single assignment of the step length" % (inst, nm))
+        ent = table.get(nm, [])
+        if not ent:
+            ck.incomplete(rule, "%s: no step length assignment found for MultiGridAdaptCGC::%s" % (inst, nm))
             continue
-        rhs = view.value(s["rhs"])
-        if rhs.get("k") != "Bin" or rhs.get("op") != "/":
-            ck.incomplete(rule, "%s: case %s: step length %s is not a quotient" % (inst, nm, render(rhs)))
+        forms = {e[0] for e in ent}
+        if len(ent) > 1 and len(forms) > 1:
+            ck.incomplete(rule, "%s: several different step length assignments execute for MultiGridAdaptCGC::%s (lines %s); which one reaches the update is not decided" % (
+                inst, nm, ", ".join(str(e[1].get("l")) for e in ent)))
             continue
-
-        def dotset(x):
-            x = view.value(x)
-            if x.get("k") == "MCall" and x.get("n") == "dot":
-                a, b = view.obj(x.get("obj")), view.obj(x["a"][0])
-                if vec(a) and vec(b) and a[1] == b[1]:
-                    return frozenset([a[2], b[2]])
-            return None
-        num, den = dotset(rhs["lhs"]), dotset(rhs["rhs"])
-        if num is None or den is None:
-            ck.incomplete(rule, "%s: case %s: %s is not a quotient of inner products of level vectors" % (inst, nm, render(rhs)))
+        form, w, text = ent[0]
+        if form is None:
+            ck.incomplete(rule, "%s: %s: step length %s is not a quotient of inner products of level vectors" % (inst, nm, text))
             continue
-        found.add(nm)
+        num, den = form
         ok = (num, den) == want[nm]
         ck.ob(rule, "%s/%s" % (inst, nm), ok, "omega = <%s>/<%s>; minimiser is <%s>/<%s> with tmp = A*cor" % (
             ",".join(sorted(num)), ",".join(sorted(den)), ",".join(sorted(want[nm][0])), ",".join(sorted(want[nm][1]) * (2 if len(want[nm][1]) == 1 else 1))),
-            view.fn.file, s.get("l"))
-    for nm in want:
-        if nm not in found:
-            ck.incomplete(rule, "%s: no step length assignment found for MultiGridAdaptCGC::%s" % (inst, nm))
+            view.fn.file, w.get("l"))
+    for nm in sorted(set(table) - set(want) - {"Fixed"}):
+        ck.incomplete(rule, "%s: step length assignment for the undocumented mode MultiGridAdaptCGC::%s" % (inst, nm))
 
 
 # -------------------------------------------------------------------------------------------------
@@ -1153,6 +1351,8 @@ def run(tier):
     for e in bad[:3]:
         ck.incomplete("E14.cycle-shape", "driver TU tu/c09_multigrid.cpp does not compile: %s:%d %s" % (e["file"], e["line"], e["msg"]))
     classes = mg_functions(facts, r"^FEAT::Solver::MultiGrid<")
+    inl = norm_c08.Inliner(facts)
+    not_modelled = lambda call, cal: cal.name not in mgmodel.HELPERS and cal.name not in ("apply", "name")
     if not classes:
         ck.incomplete("E14.cycle-shape", "no instantiation of Solver::MultiGrid found")
     need = list(CYCLES) + ["_apply_rest", "_apply_prol", "_apply_smooth_peak", "_apply_smooth_def", "_apply_coarse", "apply"]
@@ -1163,7 +1363,8 @@ def run(tier):
         if missing:
             ck.incomplete("E14.cycle-shape", "%s: anchored functions vanished: %s" % (sc, ", ".join(missing)))
             continue
-        views = {n: MGView(fns[n]) for n in need}
+        # private helpers that are not part of the event model (extracted blocks) are inlined: body and CFG
+        views = {n: MGView(inl.inline(fns[n], want=not_modelled)) for n in need}
         events = {}
         for n, v in views.items():
             evs = []
